@@ -106,14 +106,22 @@ def correspondence(ctx, violations, known_hits):
                     if a[k] != alone[(ft, text)] and len(violations) < 10:
                         violations.append({"kind": "history-dependent-result", "case": c, "sources": srcs, "source_index": k,
                                            "in_sequence": a[k], "alone": alone[(ft, text)]})
+    # `lace watch` itself: one real watcher process driven through versions that succeed with NO statement yet record a
+    # label, fail half-way, or only reference what a predecessor defined; each re-check against a fresh `lace check` (model)
+    from props import C07
+    seq = ["start .orig x3000\n", "start add r0 r0 #1\nhalt\n", "here .break\n", "br here\nhalt\n", "", "lonely .break\n.end\n",
+           "lonely halt\nbr lonely\n", "a1 halt\na2 add r0\n", "br a1\nhalt\n", "start .orig x3000\n", "br start\nhalt\n", "halt\n"]
+    if ctx.tier != "quick":
+        seq = seq + [t for t in pool if isinstance(t, str)][:40]
+    watch = C07.drive_watch(ctx, ctx.cli(), [], [], violations, seq=seq, feat=0)
     ctx.cleanup()
     return {
-        "evaluations": r["evaluations"], "distinct_nontrivial": len(r["sigs"]),
+        "evaluations": r["evaluations"] + watch["rechecks"], "distinct_nontrivial": len(r["sigs"]), "real_watch": watch,
         "rule": f"pool of {len(pool)} sources (valid, failing in the lexer, failing after labels were recorded, sharing label names, "
                 "case-differing labels, .break/.orig interleavings; the extension's sources also with the feature switched on once for the whole sequence) : each alone, ordered pairs with a reset in between (all pairs in the "
                 "thorough tier), a third of them also WITHOUT reset (to tie the symbol-table model to the code), random sequences of "
                 "3-6 with resets, threefold repetition; sources recording N labels for N around every growth step of a hash table (1..200 [..2000]) followed by sources that repeat them, share a label name or only reference a label of the predecessor; plus a direct comparison of the implementation's answer for B in a sequence "
-                "with its answer for B alone; distinct = distinct (sequence class, outcome, diagnostic)",
+                "with its answer for B alone; one real `lace watch` process driven through versions that succeed without any statement yet record a label (`start .orig`, `here .break`), fail half-way, or only reference a predecessor's label, every re-check vs the model's verdict for that version alone; distinct = distinct (sequence class, outcome, diagnostic)",
         "direct_history_comparisons": direct,
         "outcome_histogram": r["hist"], "samples": r["samples"], "mismatches": r["mismatches"], "profiles": list(profiles),
     }
